@@ -23,6 +23,10 @@ Proof. intros H. induction l; simpl; constructor; auto. Qed.
 Lemma Forall2_same {A} (R : A -> A -> Prop) l : (forall x, R x x) -> Forall2 R l l.
 Proof. intros H. induction l; constructor; auto. Qed.
 
+Lemma Forall2_weaken {A} (R R' : A -> A -> Prop) l l' :
+  (forall x y, R x y -> R' x y) -> Forall2 R l l' -> Forall2 R' l l'.
+Proof. intros H F. induction F; constructor; auto. Qed.
+
 Lemma Forall2_In_r {A} (R : A -> A -> Prop) l l' y : Forall2 R l l' -> In y l' -> exists x, In x l /\ R x y.
 Proof.
   intros F. induction F as [|b c l l' Hbc F IH]; intros Hin; [contradiction|].
@@ -33,54 +37,71 @@ Qed.
 
 (* every chrX bin moves by -x_offset (so a bin at "autosomal level + x_offset" lands on the
    autosomal level), nothing else moves *)
-Lemma shift_xx_spec hap xx t :
-  Forall2 (fun b b' => if String.eqb (b_chrom b) (x_label t)
+Lemma shift_xx_spec hap xx build t :
+  Forall2 (fun b b' => if chr_x_filter t build b
                        then same_but_log2 (- x_offset xx hap) b b' else b' = b)
-          t (shift_xx hap (Some xx) t).
+          t (shift_xx hap (Some xx) build t).
 Proof.
   unfold shift_xx, x_offset. destruct xx, hap; cbn [andb negb].
-  - apply Forall2_map_r. intros b. destruct (String.eqb (b_chrom b) (x_label t)); [|reflexivity].
+  - apply Forall2_map_r. intros b. destruct (chr_x_filter t build b); [|reflexivity].
     apply (same_but_log2_eq (qneg shift_xx_down)); [reflexivity|apply add_log2_same].
-  - apply Forall2_same. intros b. destruct (String.eqb (b_chrom b) (x_label t)); [|reflexivity].
+  - apply Forall2_same. intros b. destruct (chr_x_filter t build b); [|reflexivity].
     apply (same_but_log2_eq 0); [reflexivity|apply same_but_log2_refl].
-  - apply Forall2_same. intros b. destruct (String.eqb (b_chrom b) (x_label t)); [|reflexivity].
+  - apply Forall2_same. intros b. destruct (chr_x_filter t build b); [|reflexivity].
     apply (same_but_log2_eq 0); [reflexivity|apply same_but_log2_refl].
-  - apply Forall2_map_r. intros b. destruct (String.eqb (b_chrom b) (x_label t)); [|reflexivity].
+  - apply Forall2_map_r. intros b. destruct (chr_x_filter t build b); [|reflexivity].
     apply (same_but_log2_eq shift_xx_up); [reflexivity|apply add_log2_same].
 Qed.
 
-(* a correctly sexed X comes to the autosomal level *)
-Lemma shift_xx_level hap xx t a :
-  (forall b, In b t -> b_chrom b = x_label t -> b_log2 b == a + x_offset xx hap) ->
-  forall b', In b' (shift_xx hap (Some xx) t) -> b_chrom b' = x_label t -> b_log2 b' == a.
+(* the mask reads chromosome and coordinates only *)
+Lemma chr_x_filter_same c t build b b' : same_but_log2 c b b' -> chr_x_filter t build b' = chr_x_filter t build b.
 Proof.
-  intros H b' Hb' Hx. pose proof (shift_xx_spec hap xx t) as S.
-  assert (K : exists b, In b t /\ (if String.eqb (b_chrom b) (x_label t)
+  intros [Hc [Hs [He _]]]. unfold chr_x_filter, parx_filter, in_par. rewrite Hc, Hs, He. reflexivity.
+Qed.
+
+(* a correctly sexed X (its non-PAR part when a build is given) comes to the autosomal level *)
+Lemma shift_xx_level hap xx build t a :
+  (forall b, In b t -> chr_x_filter t build b = true -> b_log2 b == a + x_offset xx hap) ->
+  forall b', In b' (shift_xx hap (Some xx) build t) -> chr_x_filter t build b' = true -> b_log2 b' == a.
+Proof.
+  intros H b' Hb' Hx. pose proof (shift_xx_spec hap xx build t) as S.
+  assert (K : exists b, In b t /\ (if chr_x_filter t build b
                                    then same_but_log2 (- x_offset xx hap) b b' else b' = b)).
   { apply (Forall2_In_r _ _ _ _ S Hb'). }
-  destruct K as [b [Hb K]]. destruct (String.eqb (b_chrom b) (x_label t)) eqn:E.
-  - destruct K as [Hc [_ [_ [_ [_ [_ Hl]]]]]]. rewrite Hl. apply String.eqb_eq in E. rewrite (H b Hb E). ring.
-  - subst b'. apply String.eqb_neq in E. contradiction.
+  destruct K as [b [Hb K]]. destruct (chr_x_filter t build b) eqn:E.
+  - destruct K as [Hc [_ [_ [_ [_ [_ Hl]]]]]]. rewrite Hl. rewrite (H b Hb E). ring.
+  - subst b'. congruence.
+Qed.
+
+(* with a PAR build the bins inside PAR1X / PAR2X are never moved (they already sit at the autosomal
+   level), nor is any bin off chrX *)
+Lemma shift_xx_parx_fixed hap xx p t :
+  Forall2 (fun b b' => (parx_filter t p b = true \/ b_chrom b <> x_label t) -> b' = b)
+          t (shift_xx hap (Some xx) (Some p) t).
+Proof.
+  pose proof (shift_xx_spec hap xx (Some p) t) as S.
+  revert S. apply Forall2_weaken. intros b b' Hb.
+  intros Hp. unfold chr_x_filter in Hb. destruct Hp as [Hp|Hp].
+  - rewrite Hp in Hb. rewrite andb_false_r in Hb. exact Hb.
+  - apply String.eqb_neq in Hp. rewrite Hp in Hb. exact Hb.
 Qed.
 
 (* the two identity cases: female sample on a female reference, male sample on a male reference *)
-Lemma shift_xx_identity hap xx t : xx = negb hap -> shift_xx hap (Some xx) t = t.
+Lemma shift_xx_identity hap xx build t : xx = negb hap -> shift_xx hap (Some xx) build t = t.
 Proof. intros ->. unfold shift_xx. destruct hap; reflexivity. Qed.
 
 (* sex not determined (no chrX): treated as "not female" *)
-Lemma shift_xx_unknown hap t : shift_xx hap None t = shift_xx hap (Some false) t.
+Lemma shift_xx_unknown hap build t : shift_xx hap None build t = shift_xx hap (Some false) build t.
 Proof. reflexivity. Qed.
 
-(* Observation (outside C15's quantifier, which has no PAR build in its sex part): shift_xx takes a
-   diploid_parx_genome argument but uses it for guessing only -- with a PAR build the PAR-X bins of a
-   male sample on a female reference sit at the autosomal level (they are diploid) and are moved to +1
-   all the same. *)
-Example shift_xx_moves_parx :
+(* the input of the repaired defect dff7a3e: male sample, female reference, grch37; the PAR1X bin stays at
+   the autosomal level, the other chrX bin comes up to it *)
+Example shift_xx_keeps_parx :
   let t := [mkBin "chr1" 0 100 "g" 0 None None; mkBin "chrX" 60000 60100 "g" 0 None None;
             mkBin "chrX" 5000000 5000100 "g" (-1) None None] in
   exists p, resolve_build "grch37" = Some p /\
             map (parx_filter t p) t = [false; true; false] /\
-            map b_log2 (shift_xx false (Some false) t) = [0; 1; 0].
+            map b_log2 (shift_xx false (Some false) (Some p) t) = [0; 0; 0].
 Proof. eexists. split; [vm_compute; reflexivity|]. split; vm_compute; reflexivity. Qed.
 
 (* chrX label and chrY label differ on a non-empty table *)
